@@ -32,3 +32,6 @@ func (h *QueryHandler) VerifTransformUncached(ctx context.Context, sql, headerDB
 }
 
 func (h *QueryHandler) VerifPruner() *pruning.PartitionPruner { return h.pruner }
+
+// VerifHasCrossDatabaseSyntax: executeQuery rejects db.table syntax when the x-arc-database header is set.
+func VerifHasCrossDatabaseSyntax(sql string) bool { return hasCrossDatabaseSyntax(sql) }
